@@ -82,7 +82,7 @@ def concretise(s, L, hdefs, rounds=80):
                 v = m.eval(at['z'], model_completion=True)
                 s.add(at['z'] == v)
                 pinned.add(ai)
-            elif at['kind'] == 'F':
+            elif at['kind'] == 'F' and 'hint' not in at:
                 v = ival(m, at['z'])
                 if v not in outs:
                     s.add(at['z'] == v)
@@ -300,6 +300,7 @@ def replay(kind, D, B, model, real_dump, sum_dump):
     ins = list(model['inputs'])
     uf = model['uf_calls']
     ov_sum = {tuple(int(x) for x in k.split(',')): v for k, v in model['hints'].items()}
+    ov_sum = {k: v for k, v in ov_sum.items() if sum_dump['Hints'][k[0]]['Name'].endswith('NBits')}
 
     def summary_eval(rec, args):
         return [poseidon_ref.hash(args)]
@@ -331,7 +332,8 @@ def replay(kind, D, B, model, real_dump, sum_dump):
     if len(ph_s) == len(ph_r):
         m = dict(zip(ph_s, ph_r))
         for (hi, k), v in ov_sum.items():
-            if hi in m:
+            # only bit decompositions are adversarial choices worth replaying; for InvZero the honest value is the prover's best choice
+            if hi in m and sum_dump['Hints'][hi]['Name'].endswith('NBits'):
                 ov_real[(m[hi], k)] = v
     wires, failed = eval_r1cs(real_dump, ins, hint_override=ov_real)
     valid, why = oracle(kind, D, B, ins)
